@@ -118,6 +118,7 @@ def execute(program, ctx, mode):
     order = []          # creation order of labels (rebasable ones)
     attrs = {}          # iface label -> {name: description object}
     tags = {}           # iface label -> {tag: value}
+    rawtags = {}        # iface label -> {tag: generated number}
     invs = {}           # iface label -> [(stub, fails)]
     inv_calls = []
     classes = []        # real classes of impl nodes
@@ -166,6 +167,15 @@ def execute(program, ctx, mode):
         # while it has not been collected yet: either outcome is legitimate
         return None if bad_dead else True
 
+    def tagval(lbl, t, v):
+        """the value stored under a tag: usually a tuple naming its definer; sometimes a value that coincides with what
+        callers pass as the default (None, 0) -- an override to such a value must still win over a farther ancestor"""
+        if v % 10 == 0:
+            return None
+        if v % 10 == 1:
+            return 0
+        return (lbl, t, v)
+
     def new_iface(bl, iat, itg, iiv, real_name=None):
         lbl = 'I%d' % counters['I']
         counters['I'] += 1
@@ -185,12 +195,13 @@ def execute(program, ctx, mode):
             return None
         I = InterfaceClass(real_name or lbl, real_bases, d, __module__='zisim.g')
         for t, v in itg.items():
-            I.setTaggedValue(t, (lbl, t, v))
+            I.setTaggedValue(t, tagval(lbl, t, v))
         if iiv:
             I.setTaggedValue('invariants', [mk_inv(lbl, j, f) for j, f in enumerate(iiv)])
         reg(lbl, I, 'I', mb)
         attrs[lbl] = {n: I.direct(n) for n in iat}
-        tags[lbl] = {t: (lbl, t, v) for t, v in itg.items()}
+        tags[lbl] = {t: tagval(lbl, t, v) for t, v in itg.items()}
+        rawtags[lbl] = dict(itg)
         invs[lbl] = list(iiv)
         return lbl
 
@@ -494,8 +505,15 @@ def execute(program, ctx, mode):
                     g2 = I.getTaggedValue(t)
                 except KeyError:
                     g2 = dflt
+                # the default the caller passes happens to equal a stored value (None is queryTaggedValue's own default)
+                for d2 in (None, 0):
+                    g3 = I.queryTaggedValue(t, d2) if d2 is not None else I.queryTaggedValue(t)
+                    w3 = d2 if l is None else v
+                    if g3 != w3 or (g3 is None) != (w3 is None):
+                        ctx.violation('C15', 'tagged', 'C15|queryTaggedValue|default-coincides-with-a-stored-value',
+                                      {'iface': s, 'tag': t, 'default': d2, 'got': g3, 'want': w3, 'iro': [lab(x) for x in I.__iro__]})
                 for acc, gg in (('queryTaggedValue', g), ('getTaggedValue', g2)):
-                    if (gg is dflt) != (l is None) or (l is not None and gg != v):
+                    if (gg is dflt) != (l is None) or (l is not None and (gg != v or (gg is None) != (v is None))):
                         ctx.violation('C15', 'tagged', 'C15|%s|%s' % (acc, 'absent-but-defined' if gg is dflt else (
                             'present-but-undefined' if l is None else 'not-first-definer')),
                             {'iface': s, 'tag': t, 'got': None if gg is dflt else gg, 'want': v, 'iro': [lab(x) for x in I.__iro__]})
@@ -696,7 +714,7 @@ def execute(program, ctx, mode):
             node[s].__bases__ = ()
             bases_of[s] = []
             iat = {n: ('meth' if isinstance(v, Method) else 'attr') for n, v in (attrs.get(s) or {}).items()}
-            itg = {t: v[2] for t, v in (tags.get(s) or {}).items()}
+            itg = dict(rawtags.get(s) or {})
             s2 = new_iface([b for b in old_bases if kind.get(b) == 'I'], iat, itg, invs.get(s) or [], real_name=node[s].__name__)
             for d in deps:
                 nb = [s2 if b == s else b for b in bases_of[d]]
